@@ -147,11 +147,16 @@ def _gen_crafted(rng):
             break      # a lost computation stays in _comps_state for ever: later statuses are KO
         for a in leaving:
             alive.remove(a)
-        for a, cs in sel.items():
+        # what the driver does to the directory: the FIRST repair_done selecting c registers it,
+        # every agent that selected c drops its replica of c (nobody re-replicates in crafted runs)
+        selectors = {}
+        for _, a, cs in dones:
             for c in cs:
-                cur_hosts[c] = a
+                selectors.setdefault(c, []).append(a)
+        for c, ags in selectors.items():
+            cur_hosts[c] = ags[0]
         for c in comps:
-            cur_repl[c] = [a for a in cur_repl[c] if a not in leaving and a != cur_hosts[c]]
+            cur_repl[c] = [a for a in cur_repl[c] if a not in leaving and a not in selectors.get(c, [])]
     return dict(kind="crafted", agents=agents, comps=comps, hosts=hosts, replicas=replicas,
                 repair_only=rng.random() < 0.15, script=script)
 
@@ -764,6 +769,7 @@ def _crafted_problems(case, o):
     re-hosted is selected by exactly one agent"""
     out = []
     hosts = dict(case["hosts"])
+    repl = {c: list(v) for c, v in case["replicas"].items()}     # as the driver keeps the directory
     statuses = [x[1] for e in o["trace"] for x in e["outs"] if x[0] == "status"]
     si = 0
     pending = None
@@ -774,6 +780,13 @@ def _crafted_problems(case, o):
         op = script[i]
         if op[0] == "event":
             orphaned = [c for c in case["comps"] if hosts.get(c) in op[1]]
+            for c in case["comps"]:
+                repl[c] = [a for a in repl[c] if a not in op[1]]
+            if any(not repl[c] for c in orphaned):
+                # replication level not met for this event (e.g. after a duplicate selection both
+                # selectors dropped their replica): the orchestrator finds no candidate for the
+                # computation and never closes the repair -- outside the property's hypothesis
+                break
             for c in orphaned:
                 hosts.pop(c)
             j = i + 1
@@ -793,6 +806,7 @@ def _crafted_problems(case, o):
             multi = sorted(c for c in need if len(sel.get(c, [])) > 1)
             for c, ags in sel.items():
                 hosts[c] = ags[0]
+                repl[c] = [a for a in repl.get(c, []) if a not in ags]
             lost_before = set(zero)
             valid = not zero and not multi
             if status == "OK" and not valid:
